@@ -3,7 +3,7 @@ import re
 from ..framework import rule
 from ..core import *
 from ..lib import *
-from ..wirelib import ret_origin, range_bounds, const_of
+from ..wirelib import ret_origin, range_bounds, const_of, expand
 from .c04 import const_int
 from .c14 import store_origin, untuple
 
@@ -1518,3 +1518,171 @@ def r14_8(ctx):
             ctx.bad(f"{fn}|wrap-around-test", f"PacketBuffer::{fn} does not decide the wrap-around case by `window() - contiguous_window() < size`" +
                     (f" (it compares {wrong[1]})" if wrong else '') + ": a packet that does not fit at the start of the ring is admitted - padding is queued, a metadata slot is taken and "
                     "the caller is handed a slice shorter than it asked for", body=b, bb=wrong[0] if wrong else None)
+
+
+@rule('R17.8', ['C17', 'C02'], floor=1, clause='an out-of-window RST changes nothing: in the branch for segments that are not acceptable, the TIME-WAIT timer is restarted only for segments whose control is not RST')
+def r17_8(ctx):
+    F = ctx.F
+    SOCK = 'socket::tcp::Socket'
+    TM = 'socket::tcp::Timer'
+    b = ctx.method(SOCK, 'process')
+    sfc = ctx.method(TM, 'set_for_close')
+    # the acceptability flag, found by shape as in R17.4b: the bool local with most `= true` stores behind sequence/window tests
+    from .r2b import _is_seg_start, _is_seg_end, _is_win_start, _is_win_end
+    seqwin = lambda f: f[0] == 'rel' and ((_is_seg_start(f[2]) or _is_seg_end(f[2]) or _is_win_start(f[2]) or _is_win_end(f[2])) and
+                                           (_is_seg_start(f[3]) or _is_seg_end(f[3]) or _is_win_start(f[3]) or _is_win_end(f[3])))
+    behind = set()
+    for (bi, tb, lab) in guard_edges(F, b, seqwin):
+        behind |= set(b.reachable(start=tb))
+    cand = {}
+    for bi, bl in enumerate(b.blocks):
+        if bl['cl']:
+            continue
+        for si, s in enumerate(bl['s']):
+            if s[0] == 'a' and s[1][1] == [] and b.locals[s[1][0]]['ty'] == 'bool' and s[2][0] == 'use' and s[2][1][0] == 'k' and s[2][1][2] is True and bi in behind:
+                cand.setdefault(s[1][0], []).append(bi)
+    ctx.need(cand, "the segment-acceptability flag in tcp::Socket::process")
+    L = max(cand, key=lambda l: len(cand[l]))
+    sw = [x for x in bool_local_switches(b, L) if x[2] is not None]
+    ctx.need(sw, "test of the acceptability flag")
+    notrst = lambda f: (f[0] == 'rel' and f[1] == 'Ne' and any('Control::Rst' in show(x) for x in (f[2], f[3]))) or \
+        (f[0] == 'isnot' and f[3] == 'wire::tcp::Control' and 'Rst' in f[2]) or (f[0] == 'is' and f[3] == 'wire::tcp::Control' and f[2] != 'Rst')
+    g = set(pass_edges(F, b, notrst))
+    n = 0
+    for (bi, tt, ft) in sw:
+        start = ft[1]
+        # stay inside the not-acceptable branch: stop at the blocks the acceptable branch also reaches
+        acc = set(b.reachable(start=tt[1])) if tt else set()
+        region = set(b.reachable(start=start, cut_blocks=acc))
+        sites = [x[0] for x in b.calls() if b.callee_name(x[1]) == sfc.key and x[0] in region]
+        for s_ in sites:
+            n += 1
+            if s_ in b.reachable(start=start, cut_edges=g, cut_blocks=acc):
+                ctx.bad("process|out-of-window-rst|restarts-time-wait", "for a segment that is not acceptable the TIME-WAIT timer is restarted before it is known that the segment is "
+                        "not a RST: stray or forged out-of-window RSTs keep a socket in TIME-WAIT for ever", body=b, bb=s_)
+            else:
+                ctx.ok(('process', 'time-wait restart', s_), sample=dict(fn='process', restart='only for control != RST'))
+    ctx.need(n >= 1, "TIME-WAIT restart in the not-acceptable branch of tcp::Socket::process")
+
+
+@rule('R16.10', ['C16', 'C11', 'C03'], floor=3, clause='neighbor discovery messages reach process_ndisc only with hop limit 255 (not forwarded by a router), and the neighbor cache entry of an IPv4 sender is refreshed only by a packet addressed to one of the interface\'s own unicast addresses')
+def r16_10(ctx):
+    F = ctx.F
+    pn = [k for k in F.bodies if k.endswith('::process_ndisc') and '::test' not in k]
+    ctx.need(pn, "InterfaceInner::process_ndisc")
+    hl = lambda f: f[0] == 'rel' and f[1] == 'Eq' and any(l.endswith('.hop_limit') for l in leafs(f[2]) | leafs(f[3])) and 255 in (const_of(f[2]), const_of(f[3]))
+    n = 0
+    for k, b in sorted(F.bodies.items()):
+        if '::test' in k or not (b.file or '').startswith('src/iface/'):
+            continue
+        for x in b.calls():
+            if b.callee_name(x[1]) in pn:
+                n += 1
+                fnm = k.split('>::')[-1] if '>::' in k else k.rsplit('::', 1)[-1]
+                if unguarded(F, b, [x[0]], hl):
+                    ctx.bad(f"{fnm}|process_ndisc|hop-limit", f"{fnm} hands a neighbor discovery message to process_ndisc without hop_limit == 255: a solicitation / advertisement "
+                            "forged off-link and routed in can fill the neighbor cache, and traffic is then framed to the forger's hardware address", body=b, bb=x[0])
+                else:
+                    ctx.ok((fnm, 'ndisc hop limit', x[0]), sample=dict(fn=fnm, guard='ip_repr.hop_limit == 255'))
+    ctx.need(n >= 1, "calls of process_ndisc")
+    nc = 'iface::neighbor::Cache'
+    re_ = F.method(nc, 'reset_expiry_if_existing')
+    uni = [k for k in F.bodies if k.endswith('::is_unicast_v4')]
+    if re_ is not None and uni:
+        for k, b in sorted(F.bodies.items()):
+            if '::test' in k or not k.endswith('::process_ipv4'):
+                continue
+            sites = [x[0] for x in b.calls() if b.callee_name(x[1]) == re_.key]
+            for s_ in sites:
+                if unguarded(F, b, [s_], p_call(lambda n_: n_ in uni, True)):
+                    ctx.bad("process_ipv4|neighbor-refresh|not-own-unicast", "process_ipv4 refreshes the sender's neighbor cache entry for a packet that is not addressed to one of the "
+                            "interface's own unicast addresses (is_unicast_v4): subnet-directed broadcasts keep an entry alive past its lifetime without any re-resolution", body=b, bb=s_)
+                else:
+                    ctx.ok(('process_ipv4', 'neighbor refresh'), sample=dict(fn='process_ipv4', guard='self.is_unicast_v4(dst_addr)'))
+
+
+@rule('R15.9', ['C15', 'C04'], floor=1, clause='Assembler::is_empty answers from the data of the leading range (not from its hole)')
+def r15_9(ctx):
+    F = ctx.F
+    AS = 'storage::assembler::Assembler'
+    CT = 'storage::assembler::Contig'
+    b = ctx.method(AS, 'is_empty')
+    r = expand(F, ret_origin(F, b), AS)
+    ls = leafs(r)
+    hd = any(l == f"F:{CT}.data_size" or l.endswith('::has_data') for l in ls)
+    hh = any(l == f"F:{CT}.hole_size" or l.endswith('::has_hole') for l in ls)
+    if hd and not hh:
+        ctx.ok(('is_empty', 'data_size'), sample=dict(fn='Assembler::is_empty', answers_from='front().has_data()'))
+    else:
+        ctx.bad("Assembler::is_empty|not-from-data", f"Assembler::is_empty answers from {sorted(l for l in ls if l.startswith(('F:', 'C:')))[:4]}: a tracker whose leading range "
+                "starts at offset 0 (no hole) is reported empty although it holds data", body=b)
+
+
+@rule('R13.12', ['C13', 'C19', 'C02'], floor=3, clause='a poll_at answer is never the later of two deadlines: deadlines are combined with min, never with max')
+def r13_12(ctx):
+    F = ctx.F
+    nmin = 0
+    for k, b in sorted(F.bodies.items()):
+        if '::test' in k or not (k.rsplit('::', 1)[-1] == 'poll_at' or 'poll_at::{closure' in k):
+            continue
+        for x in b.calls():
+            c = x[1]
+            nm = (b.callee_name(c) or (c.get('fn') if isinstance(c, dict) else '') or '')
+            last = nm.rsplit('::', 1)[-1]
+            ga = ' '.join(c.get('ga') or []) if isinstance(c, dict) else ''
+            if last not in ('min', 'max') or not ('time::Instant' in ga or 'PollAt' in ga or 'time::Instant' in nm or 'PollAt' in nm):
+                continue
+            short = k.split('::', 1)[-1]
+            if last == 'min':
+                nmin += 1
+                ctx.ok((short, 'min', x[0]), sample=dict(fn=short, combines='min'))
+            else:
+                ctx.bad(f"{short}|deadline-max", f"{short} combines two deadlines with max(): the earlier one (a retransmission that is due before the server time-out, a timer "
+                        "that fires before another) is not reported, and the stack acts before the instant it announced", body=b, bb=x[0])
+    ctx.need(nmin >= 3, f"min() combinations of deadlines in poll_at functions (found {nmin})")
+
+
+@rule('R20.5', ['C20', 'C06', 'C12'], floor=2, clause='6LoWPAN: every fragmented datagram gets a fresh datagram tag (the tag counter advances each time one is taken), and IphcRepr::buffer_len() reserves an in-line hop-limit octet for exactly the hop limits that set_hop_limit() does not compress')
+def r20_5(ctx):
+    F = ctx.F
+    II = 'iface::interface::InterfaceInner'
+    cands = [b for k, b in F.bodies.items() if k.endswith('::get_sixlowpan_fragment_tag') and '::test' not in k]
+    ctx.need(cands, "get_sixlowpan_fragment_tag")
+    b = cands[0]
+    mw = must_write_fields(F, b, II)
+    if 'tag' not in mw:
+        ctx.bad("get_sixlowpan_fragment_tag|tag-not-advanced", "get_sixlowpan_fragment_tag hands out the tag without advancing the counter: all fragmented datagrams of the interface carry "
+                "the same tag, so fragments of two datagrams of equal size share a reassembly key and are mixed by the receiver", body=b)
+    else:
+        bi, si = mw['tag'][0]
+        o = strip(simplify(F.origin.rvalue(b, b.blocks[bi]['s'][si][2], bi, si, 0, None))) if si != 'T' else strip(simplify(F.origin.call_node(b, b.blocks[bi]['t'], bi, 0, None)))
+        okv = (o[0] == 'call' and o[1].rsplit('::', 1)[-1] in ('wrapping_add', 'add') and any(const_of(a) == 1 for a in o[2]) and any(l.endswith('.tag') for l in leafs(o))) or \
+            (o[0] == 'bin' and o[1] == 'Add' and 1 in (const_of(o[2]), const_of(o[3])))
+        if okv:
+            ctx.ok(('fragment tag', 'advances'), sample=dict(fn='get_sixlowpan_fragment_tag', stores='tag.wrapping_add(1)'))
+        else:
+            ctx.bad("get_sixlowpan_fragment_tag|tag-step", f"get_sixlowpan_fragment_tag stores {show(o)[:60]} into the tag counter (expected tag + 1)", body=b, bb=bi)
+    # hop limit: values with a zero-length encoding in buffer_len == values set_hop_limit maps to a compressed code
+    IPHC = 'wire::sixlowpan::iphc::Packet'
+    IR = 'wire::sixlowpan::iphc::Repr'
+    shl = ctx.method(IPHC, 'set_hop_limit')
+    bl_ = ctx.method(IR, 'buffer_len')
+
+    def switch_vals(body, pred):
+        out = None
+        for bi, blk in enumerate(body.blocks):
+            if blk['cl'] or blk['t'][0] != 'switch':
+                continue
+            d = simplify(F.origin.operand(body, blk['t'][1], bi, len(blk['s'])))
+            if pred(d):
+                vals = {int(v) for v, tb in blk['t'][2] if isinstance(v, int) or str(v).isdigit()}
+                out = (out or set()) | vals
+        return out
+    wr = switch_vals(shl, lambda d: strip(d) == ('arg', 2))
+    rd = switch_vals(bl_, lambda d: is_field(d, IR, 'hop_limit'))
+    ctx.need(wr and rd, f"hop-limit tables (set_hop_limit {wr}, buffer_len {rd})")
+    if wr == rd:
+        ctx.ok(('iphc', 'hop-limit length table'), sample=dict(compressed_hop_limits=sorted(wr)))
+    else:
+        ctx.bad("iphc::Repr::buffer_len|hop-limit-table", f"IphcRepr::buffer_len() treats hop limits {sorted(rd)} as compressed while set_hop_limit() compresses {sorted(wr)}: for the others the "
+                "declared header length and the emitted one differ by an octet, and everything behind the IPHC header is written / read at the wrong place", body=bl_)
